@@ -5,3 +5,5 @@ pub mod sim;
 pub mod smoke;
 pub mod e2e;
 pub mod hostile;
+pub mod reqrep_e2e;
+pub mod reconnect;
